@@ -431,9 +431,73 @@ InvD == (c.mode = "deep" /\ c.stage = 1) =>
               ncie |-> Len(c.cie), nfde |-> Len(c.fde), noget |-> TRUE, mode |-> "deep"])>>)
 
 (***************************************************************************)
+(* Mode "eh": .eh_frame, CIE augmentation "zR".  The FDE pointer encoding  *)
+(* byte ranges over format x application x indirect (valid and invalid     *)
+(* ones, DW_EH_PE_omit), with all / no base addresses; the FDE's initial   *)
+(* location, range and the DW_CFA_set_loc operand are written in that      *)
+(* encoding.  Expected: the row addresses (base + value, wrapped at the    *)
+(* address size), or the error of the first failing step - CIE / FDE       *)
+(* header parse ("parse:<kind>") or the set_loc instruction (missing base, *)
+(* aligned, UnsupportedIndirectPointer: an indirect operand would have to  *)
+(* be read from target memory and must never become a row address).        *)
+(***************************************************************************)
+EhFormats == IF Quick THEN {0, 1, 2, 3, 4, 9, 11, 12, 5} ELSE {0, 1, 2, 3, 4, 9, 10, 11, 12, 5, 15}
+EhApps == IF Quick THEN {0, 1, 2, 3, 4, 5} ELSE {0, 1, 2, 3, 4, 5, 6, 7}
+EhEncs == {f + 16 * a + i : f \in EhFormats, a \in EhApps, i \in {0, 128}} \cup {255}
+EhBases == { [section |-> SomeBase(Nat8(4096)), text |-> SomeBase(Nat8(8192)), data |-> SomeBase(Int8(-256))],
+             [section |-> NoBase, text |-> NoBase, data |-> NoBase] }
+ECfg(asz, le) == [asz |-> asz, caf |-> Nat8(1), daf |-> Int8(-8), ver |-> 1, le |-> le, ra |-> 16]
+ECie == << [op |-> "DefCfa", r |-> 7, o |-> Nat8(8)] >>
+(* raw operand values of set_loc: forward, backward, negative *)
+EhLocs == {Nat8(4112), Nat8(2048), Int8(-8)}
+InitE == c = [mode |-> "eh", stage |-> 0] /\ Idle
+NextE ==
+    /\ c.mode = "eh" /\ Stay
+    /\ IF c.stage = 0
+       THEN \E enc \in EhEncs, asz \in (IF Quick THEN {8} ELSE {4, 8}) : c' = [mode |-> "eh", stage |-> 2, enc |-> enc, asz |-> asz]
+       ELSE /\ c.stage = 2
+            /\ \E bs \in EhBases, loc \in EhLocs, le \in (IF Quick THEN {TRUE} ELSE BOOLEAN), shape \in {1, 2} :
+                 c' = [mode |-> "eh", stage |-> 1, enc |-> c.enc, asz |-> c.asz, bases |-> bs, loc |-> loc, le |-> le, shape |-> shape]
+ERun(s) ==
+    LET cfg0 == ECfg(c.asz, c.le)
+        fmt  == EhFormat(c.enc)
+        setl == <<1>> \o EncRaw(fmt, c.loc, c.asz, c.le)
+        fdeb == IF c.shape = 1 THEN setl \o <<14, 16>>                       \* set_loc; def_cfa_offset 16
+                ELSE <<65>> \o setl \o <<14, 16, 66>>                        \* advance 1; set_loc; def_cfa_offset; advance 2
+        cieb == EncProg(ECie, c.asz, c.le)
+        e    == [enc |-> c.enc, init |-> Nat8(4096), range |-> Nat8(256)]
+        sec  == EhSection(cfg0, e, cieb, fdeb)
+        fo   == EhFdeOff(cfg0, e, cieb)
+        pe   == [on |-> TRUE, enc |-> c.enc, section |-> c.bases.section, text |-> c.bases.text, data |-> c.bases.data]
+        h    == EhFdeHeader(sec, fo, pe, c.asz, c.le) IN
+    IF ~h.ok THEN [sec |-> sec, fdeoff |-> fo, parse |-> h.err]
+    ELSE LET cfg == cfg0 @@ [start |-> h.start, range |-> h.range]
+             cie == DecodeAll(cieb, EhCieInsOff(cfg0, c.enc), c.asz, c.le, "default")
+             fde == DecodeFromX(sec, h.ins, 0, c.asz, c.le, "default", pe) IN
+         [sec |-> sec, fdeoff |-> fo, parse |-> "", cfg |-> cfg,
+          mach |-> RunOn(Fresh(s), cfg, cie, fde), ref |-> RRun(cfg, cie, fde)]
+InvE == (c.mode = "eh" /\ c.stage = 1) =>
+        LET a == ERun("vec")
+            h == ERun("heap")
+            perr == [n |-> 0, fin |-> "parse:" \o a.parse] IN
+        /\ a.parse = "" => /\ Obs(a.mach) = RObs(a.ref) /\ Obs(h.mach) = RObs(h.ref)
+                           /\ RowsWellFormed(RObs(a.ref), a.cfg)
+                           (* an indirect encoding never yields a row from set_loc *)
+                           /\ EhIndirect(c.enc) => a.mach.st = "err"
+        /\ PrintT(<<"CASE", ToJson(
+             [sys |-> "cfiexec", eh |-> TRUE, sec |-> a.sec, fdeoff |-> a.fdeoff, asz |-> c.asz, le |-> c.le,
+              bases |-> [section |-> IF c.bases.section.some THEN c.bases.section.v ELSE <<>>,
+                         text |-> IF c.bases.text.some THEN c.bases.text.v ELSE <<>>,
+                         data |-> IF c.bases.data.some THEN c.bases.data.v ELSE <<>>],
+              probe |-> <<7, 16>>, enc |-> c.enc,
+              rows |-> IF a.parse = "" THEN [j \in DOMAIN a.mach.out |-> [RowOut(a.mach.out[j]) EXCEPT !.get = <<>>]] ELSE <<>>,
+              exp |-> IF a.parse = "" THEN [vec |-> ShortM(a.mach), heap |-> ShortM(h.mach)] ELSE [vec |-> perr, heap |-> perr],
+              ncie |-> 1, nfde |-> 2, noget |-> TRUE, mode |-> "eh"])>>)
+
+(***************************************************************************)
 (* all auxiliary modes in one run                                          *)
 (***************************************************************************)
-InitX == InitL \/ InitB \/ InitG \/ InitD
-NextX == NextL \/ NextB \/ NextG \/ NextD
-InvX == InvL /\ InvB /\ InvG /\ InvD
+InitX == InitL \/ InitB \/ InitG \/ InitD \/ InitE
+NextX == NextL \/ NextB \/ NextG \/ NextD \/ NextE
+InvX == InvL /\ InvB /\ InvG /\ InvD /\ InvE
 =============================================================================
